@@ -64,12 +64,44 @@ CLAIMED.update({
          'User overrides are consulted first on every reduction iteration; every child hint comes from a sanifying producer that reaches reduce_hint; is_pep484_tower is data folded into hint_overrides under beartype/_conf only (float->float|int, complex->complex|float|int); the violation options are read only by the reporting layer.',
          AST_NOTE + ' Semantic equality with the hand-rewritten hint is not decided.', 'DESIGN.md §4 C18'),
  'C19': ('field-read analysis of the container protocol methods + contradiction rule on __eq__/__hash__ + short-circuit analysis of is_subhint + cache-call shape + sibling cross-check of subclass overrides',
-         'len/iter/index/bool/contains/args of TypeHint are views of one tuple; __eq__ and __hash__ must use one key; no hint may be unconditionally both least and greatest; TypeHint(h) goes through the locked cache keyed by h with an unhashable fallback; subclasses overriding the wrapped children keep them in step with args. Reflexivity / transitivity / soundness of is_subhint over all hints are NOT decided.',
+         'len/iter/index/bool/contains/args of TypeHint are views of one tuple; __eq__ and __hash__ must use one key; no hint may be unconditionally both least and greatest; TypeHint(h) goes through the locked cache keyed by h with an unhashable fallback; subclasses overriding the wrapped children keep them in step with args. ',
          AST_NOTE + ' Known findings F14a, F14b, F14c.', 'DESIGN.md §4 C19'),
  'C20': ('dependence analysis of infer_hint returns + sibling deviance among state-machine nodes + seen-set threading of recursive calls + factory/sign table agreement incl. arity + abstract interpretation of the item inferer over abstract collections x strategies',
          'A result that does not depend on the object must accept everything; protocol nodes of the inference state machine yield abstract factories; the recursion guard comes first and every recursive call passes the extended seen-set; every builtin factory has a supported sign. The round trip for all objects is NOT decided. Under the On strategy the item hint is the union of the hints of every item (every key and value; every position of a short root tuple).',
          AST_NOTE + ' Known finding F15a; F15b repaired in /repo (fix: 4291237).', 'DESIGN.md §4 C20'),
 })
+
+# rules added after the first build (second round of seeded changes / neutral refactorings): appended to technique / level text
+EXTRA = {
+ 'C01': (' + abstract interpretation of the union production on crafted unions',
+         ' Union members: a user generic is deep-checked, no member is dropped or duplicated; the repr()-keyed coercion cache is never consulted for hints containing type variables; the names excluded from the **kwargs check are exactly the keywordable parameters.'),
+ 'C02': (' + abstract interpretation of the union production and of the child getter of the subclass production',
+         ' type[T] tests issubclass against T itself for every kind of T (only an ignorable T elides the test); union members as for C01.'),
+ 'C04': (' + code-object kind classification + abstract interpretation of the standard-library wrapper decorators',
+         ' The wrapper is the same kind of callable as the decorated one, decided from its own code object; functools.lru_cache and the other re-created standard wrappers keep their arguments (maxsize x typed).'),
+ 'C09': (' + guard-occurrence tracking of item reads in the term evaluator',
+         ' No item read is evaluated at two places under one occurrence of its container\'s type test (at most one item per container node reached).'),
+ 'C10': (' + abstract interpretation of the container cause finders on non-collections + taint-following who-may-call analysis of beartype\'s own __instancecheck__ hooks',
+         ' The explanation of a rejection does not iterate non-collections either; the __instancecheck__ hooks beartype itself defines (IO pseudo-protocols, caching protocol, forward-reference proxies) and the functions they hand the object to only read type, identity and attributes.'),
+ 'C11': (' + licensed-operation analysis of the explanation path + handler analysis around evaluation of user text and user callables + imported agreement obligations of C03 + sibling agreement of exception handlers around user metaclass probes + identity-only analysis of the raw annotation',
+         ' User text is evaluated only inside a broad handler; user validator callables keep their exceptions; the agreement obligations of C03 hold (a disagreement would surface as a private underscore class); tester and raiser of the isinstance/issubclass probes catch the same classes, everything; before validation the raw annotation is only compared by identity (no rich comparison, truth test or display membership).'),
+ 'C12': (' + abstract interpretation of the Annotated cause finder with scripted validators',
+         ' Nested Annotated shapes are conjunctions too; the explanation calls the user\'s validators exactly as the check does.'),
+ 'C14': (' + store-before-raise analysis of memo owners + repr-de-duplication scan with positive examples + ownership check of attributes stored on caller-supplied functions',
+         ' A failure is not remembered (no memo store before a later raise on the same path); lazily evaluated user text counts as environment; the repr()-keyed coercion cache is never consulted for hints with type variables; nothing is de-duplicated by repr(); pooled objects are not used after hand-back inside the pool.'),
+ 'C15': (' + one-snapshot-per-operation analysis of registry reads',
+         ' Between two suspension points an operation reads each registry field once under the lock; pooled objects are not touched after they were handed back.'),
+ 'C16': (' + abstract interpretation of the file finder\'s loader details and of the hooked source_to_code',
+         ' get_code is called once, patches only while a hooked module compiles and restores the library\'s own function also under overlapping imports; the file finder keeps CPython\'s loader order and replaces only the source loader; the hooked source_to_code transforms under the module\'s configuration and lets transformer failures out.'),
+ 'C17': (' + call-graph fallibility analysis after publication + hash/equality agreement of the frozen dictionary + abstract interpretation of the tower merge',
+         ' Publication into the memo table is the last fallible step; the memo key is lossless; the frozen-dictionary key component hashes order-insensitively like it compares; a tower / override conflict is rejected in every combination.'),
+ 'C18': (' + abstract interpretation of reduce_hint with a scripted second reducer + abstract interpretation of get_hint_object_violation',
+         ' Overrides compose with other reducers at every depth; the explanation sanifies the root hint under the configuration the check ran under.'),
+ 'C19': (' + soundness obligation of every _is_subhint_branch override (guards normalised) + reasoned table of the arguments-ignorable flag + sign-dominance of _is_equal overrides + abstract interpretation of the base branch test and of the union wrapper\'s subhint test over abstract wrappers',
+         ' Every _is_subhint_branch override establishes origin compatibility before it can hold (F23 repaired in /repo, fix: 8d67614); the base test holds exactly under origin compatibility and (ignorable arguments or same class, same arity, all children subhints); the union test is sound against the leaf expansion and reflexive also with union-like members (bounded type variables). Transitivity and soundness beyond these obligations are NOT decided.'),
+ 'C20': (' + construction and walk of the protocol state machine by abstract interpretation + repr-de-duplication scan',
+         ' The protocol state machine, built and walked by interpretation, reaches the most specific node whose attributes are ALL present; nothing is de-duplicated by repr().'),
+}
 
 NOT_YET = {}
 NOT_APPLICABLE = {
@@ -82,6 +114,8 @@ def main():
     for pid in props:
         if pid in CLAIMED:
             tech, text, note, ref = CLAIMED[pid]
+            if pid in EXTRA:
+                tech, text = tech + EXTRA[pid][0], text + EXTRA[pid][1]
             checks.append({
                 'property_id': pid,
                 'quick_cmd': f'./check {pid} --tier quick',
